@@ -16,6 +16,7 @@ package sourcebundle
 //@ macro dirSafeAt(B, K): B.remotePackageDirs != nil && (mapHas(B.remotePackageDirs, K) ==> safeSeg(B.remotePackageDirs[K]))
 
 //@ func (*Bundle).LocalPathForRemoteSource -> (r, err)
+//@   opt lemmas=bundle
 //@   pure
 //@   sweep
 //@   requires pre.b: b != nil
@@ -25,6 +26,7 @@ package sourcebundle
 //@   ensures C18,C08.remote.found: (err == nil) == mapHas(b.remotePackageDirs, addr.pkg)
 
 //@ func (*Bundle).LocalPathForRegistrySource -> (r, err)
+//@   opt lemmas=bundle
 //@   pure
 //@   sweep
 //@   requires pre.b: b != nil
@@ -37,6 +39,7 @@ package sourcebundle
 //@                    ite(Join(b.registryPackageSources[addr.pkg][version].subPath, addr.subPath) == ".", "", Join(b.registryPackageSources[addr.pkg][version].subPath, addr.subPath)))
 
 //@ func (*Bundle).SourceForLocalPath -> (r, err)
+//@   opt lemmas=bundle
 //@   sweep
 //@   requires pre.b: b != nil
 //@   requires pre.inv: rootOK(b) && b.remotePackageDirs != nil
